@@ -1,6 +1,7 @@
 import Driver.Codec
 import Cirbo.Model.Eval
 import Cirbo.Model.Checkers
+import Cirbo.Model.Traverse
 /-! `cirbo_model`: one JSON request per input line, one JSON response per output line. -/
 open Lean Cirbo Driver
 
@@ -9,6 +10,14 @@ def getCircuit (j : Json) (k : String := "c") : Except String Circuit := do
 
 def getAsg (j : Json) (k : String := "asg") : Except String (Dict V3) := do
   parseAsg (← j.getObjVal? k)
+
+def jEv : Ev → Json
+  | .enter l => Json.arr #[Json.str "enter", Json.str l]
+  | .discover l s => Json.arr #[Json.str "discover", Json.str l, Json.str s.toStr]
+  | .exit l => Json.arr #[Json.str "exit", Json.str l]
+  | .yield l => Json.arr #[Json.str "yield", Json.str l]
+  | .unvisited l => Json.arr #[Json.str "unvisited", Json.str l]
+  | .done => Json.arr #[Json.str "end"]
 
 def handle (j : Json) : Except String Json := do
   let op ← (← j.getObjVal? "op").getStr?
@@ -53,6 +62,18 @@ def handle (j : Json) : Except String Json := do
     -- verified checker: is `v` the Boolean denotation of `c` under total assignment `asg`?
     let c ← getCircuit j; let a ← getAsg j; let v ← getAsg j "v"
     pure (ok (Json.bool (checkValB c a v)))
+  | "traverse" => do
+    let c ← getCircuit j
+    let bfs ← (← j.getObjVal? "bfs").getBool?
+    let inv ← (← j.getObjVal? "inverse").getBool?
+    let tsu ← (← j.getObjVal? "topsort_unvisited").getBool?
+    let start := match j.getObjVal? "start" with
+      | .ok (Json.arr xs) => some (xs.toList.filterMap (fun x => x.getStr?.toOption))
+      | _ => none
+    pure (ofExcept (fun log => Json.arr (log.map jEv).toArray) (traverse c bfs inv start tsu))
+  | "cycle_check" => do
+    let c ← getCircuit j
+    pure (ofExcept Json.bool (hasCycleCheck c))
   | "optable_issues" => pure (ok (jStrs opTableIssues))
   | "check_wf" => do
     let c ← getCircuit j
